@@ -665,7 +665,32 @@ def run_reqopts(ck):
         worst = byid[mism[0]]
         ck.violation({"property": PID, "kind": "model/implementation disagree on a request option", "class": worst["class"],
                       "reqopts_case": {k: v for k, v in worst.items() if k != "coq"}, "broken": "correspondence ReqOpts vs WithOverallContextMiddleware / PushInfluxV2"}, no_input=True)
+    # the ddsource parameter of the Cloudflare-Datadog route (PushCfDatadogV2): the label of the stored series row
+    outp = os.path.join(ck.work, "reqopts_ddsource.jsonl")
+    env2 = dict(env, C03_REQOPTS="ddsource")
+    rc, out = ck.go_run("decode", ["--seed", ck.seed, "--n", ck.n(300, 6000), "--out", outp], timeout=600, env_extra=env2)
+    if rc != 0:
+        ck.obligation("harness decode (ddsource parameter) ran", False, out[-1500:])
+        return
+    dcs = [json.loads(l) for l in open(outp) if l.strip()]
+    dm, dv, out = eval_two(ck, "C03_reqopts_dd", OHEADER, "dcase", dcs, "dc_check_all")
+    if dm is None:
+        ck.obligation("ddsource cases evaluated inside Coq", False, out[-2500:])
+        return
+    dv = sorted(set(dv) | {c["id"] for c in dcs if c.get("panic")})
+    dby = {c["id"]: c for c in dcs}
+    ck.obligation("request options: the Cloudflare-Datadog route stores every line under the label ddsource = the parameter's own text, or unknown when it is absent or empty (model ReqOpts.ddsource_of_query = PushCfDatadogV2 on %d requests, series rows read off the time-series service)" % len(dcs),
+                  not dm and not dv and {c["class"] for c in dcs} >= {"ddsource-route/absent", "ddsource-route/empty", "ddsource-route/written"}, "mismatching / violating case ids: %s %s" % (dm[:10], dv[:10]))
+    if dv or dm:
+        worst = dby[(dv or dm)[0]]
+        ck.violation({"property": PID, "kind": "the Cloudflare-Datadog route stores a line under a ddsource label other than the request's", "class": worst["class"],
+                      "ddsource_case": {k: v for k, v in worst.items() if k != "coq"}, "cases_with_this_failure": len(dv or dm),
+                      "explanation": "dc_spec_violation (coq/model/ReqOpts.v): one Cloudflare line pushed to /cf/v1/insert?ddsource=<query>; series = the label documents of the time_series rows the route handed over; want = the text the generator wrote (unknown for an absent / empty parameter)",
+                      "replay": "C03_MODE=reqopts C03_REQOPTS=ddsource harness decode --seed <seed> --n <id+1>"}, no_input=not dv)
+    ck.coverage["evaluations"] += len(dcs)
     hist = {}
+    for c in dcs:
+        hist["reqopts/" + c["class"]] = hist.get("reqopts/" + c["class"], 0) + 1
     for c in cases:
         key = "reqopts/" + c["class"] + ("/status %d" % c["status"] if c["influx"] else "")
         hist[key] = hist.get(key, 0) + 1
